@@ -330,6 +330,107 @@ def gen_bool(seed, tier):
     return lines
 
 
+# ------------------------------------------------------------------ array statements (oracle only)
+
+def rand_astmt(rng, nv, na):
+    """an array statement over a0..a(na-1); indices are small constants or a variable plus a small constant (element size 1),
+    or multiples of 4 (element size 4)"""
+    A = lambda: rng.randrange(na)
+    def idx(sz):
+        if sz == 1 and rng.random() < 0.4:
+            return "E 1 1 %d %d" % (rng.randrange(nv), rng.choice([0, 0, 1, -1, 2]))
+        return "E 0 %d" % (sz * rng.choice([0, 1, 2, 3, 4, 5, 7, 10]))
+    def val():
+        return rng.choice(["E 0 %d" % rng.choice([0, 1, 7, -3, 5]), "E 1 1 %d 0" % rng.randrange(nv), "E 1 1 %d 1" % rng.randrange(nv)])
+    sz = rng.choice([1, 1, 1, 4])
+    k = rng.choices(["ainit", "astore", "astorer", "aload", "aassign"], [1, 4, 5, 7, 1])[0]
+    if k == "ainit":
+        return "ainit %d %d %s %s %s" % (A(), sz, "E 0 0", "E 0 %d" % (sz * rng.choice([3, 5, 10, 12])), val())
+    if k == "astore":
+        return "astore %d %d %d %s %s" % (A(), sz, rng.choice([0, 1]), idx(sz), val())
+    if k == "astorer":
+        lo = rng.choice([0, 1, 2, 3]) * sz
+        hi = rng.choice(["E 0 %d" % (lo + sz * rng.choice([0, 1, 2, 4, 7])), "E 0 %d" % (lo + sz * rng.choice([1, 3, 6])),
+                         ("E 1 1 %d %d" % (rng.randrange(nv), rng.choice([0, 1, 3]))) if sz == 1 else "E 0 %d" % (lo + 8)])
+        return "astorer %d %d E 0 %d %s %s" % (A(), sz, lo, hi, val())
+    if k == "aload":
+        return "aload %d %d %d %s" % (rng.randrange(nv), A(), sz, idx(sz))
+    return "aassign %d %d" % (A(), A())
+
+
+def gen_arr_cfg(rng, big=False):
+    """the CFG shapes of gen_cfg with blocks that mix numerical and array statements; loaded values flow into
+    assumptions, assertions and the function outputs"""
+    nblk, nv, ex, _blocks, edges, _extra, _na = gen_cfg(rng, big)
+    nv = max(nv, 2)
+    na = rng.choice([1, 1, 2])
+    ids = []
+    blocks = []
+    for b in range(nblk):
+        ss = []
+        for _ in range(rng.choice([0, 1, 2, 2, 3, 4, 5])):
+            ss.append(rand_astmt(rng, nv, na) if rng.random() < 0.6 else rand_stmt(rng, nv))
+            if ss[-1].startswith("aload") and rng.random() < 0.5:
+                x = int(ss[-1].split()[1]); c = rng.choice([0, 1, 7, -3, 5])
+                if rng.random() < 0.5:
+                    ss.append("assume C %s E 1 1 %d %d" % (rng.choice(["eq", "ne", "le"]), x, -c))
+                else:
+                    aid = len(ids) + 1; ids.append(aid)
+                    ss.append("assert C %s E 1 1 %d %d %d" % (rng.choice(["eq", "ne", "le"]), x, -c, aid))
+        blocks.append(ss)
+    # small known values for the variables used as indices / bounds
+    blocks[0][0:0] = ["assign %d E 0 %d" % (v, rng.choice([0, 1, 2, 3, 5, 7])) for v in range(nv) if rng.random() < 0.6]
+    extra = []
+    if ex >= 0 and rng.random() < 0.8:
+        vs = list(range(nv)); rng.shuffle(vs)
+        nout = rng.randint(1, min(3, nv))
+        extra.append("F 0 %d %s" % (nout, " ".join(map(str, vs[:nout]))))
+    return nblk, nv, ex, blocks, edges, extra, ids
+
+
+CORPUS_ARR = [
+    # a range store in a block that simplify folds into its predecessor / that cfg::clone copies; the cell read lies inside the range only
+    "cfg 4 3 3 q=simp | F 0 1 2 | B 0 assign 0 E 0 2 ; assign 1 E 0 6 | B 1 astorer 0 1 E 1 1 0 0 E 1 1 1 0 E 0 7 | B 2 aload 2 0 1 E 1 1 1 0 | B 3 arith add 2 2 k 1 | E 0 1 1 2 2 3",
+    "cfg 4 3 3 q=clone | F 0 1 2 | B 0 assign 0 E 0 2 ; assign 1 E 0 6 | B 1 astorer 0 1 E 1 1 0 0 E 1 1 1 0 E 0 7 | B 2 aload 2 0 1 E 1 1 1 0 | B 3 arith add 2 2 k 1 | E 0 1 1 2 2 3",
+    "cfg 4 3 3 q=pipe | F 0 1 2 | B 0 assign 0 E 0 2 ; assign 1 E 0 6 | B 1 astorer 0 1 E 1 1 0 0 E 1 1 1 0 E 0 7 | B 2 aload 2 0 1 E 1 1 1 0 | B 3 arith add 2 2 k 1 | E 0 1 1 2 2 3",
+    # array_init then loads inside the initialised range; a store that is dead (overwritten array) and one that is not
+    "cfg 3 2 2 q=dce | F 0 1 1 | B 0 ainit 0 1 E 0 0 E 0 10 E 0 5 ; astore 0 1 1 E 0 3 E 0 7 | B 1 aload 1 0 1 E 0 3 ; astore 1 1 0 E 0 0 E 0 1 | B 2 aload 0 0 1 E 0 4 | E 0 1 1 2",
+    "cfg 3 2 2 q=simp | F 0 1 1 | B 0 ainit 0 4 E 0 0 E 0 40 E 1 1 0 0 ; astore 0 4 0 E 0 8 E 0 7 | B 1 aassign 1 0 ; aload 1 1 4 E 0 8 | B 2 aload 0 1 4 E 0 12 | E 0 1 1 2",
+]
+
+
+def gen_arr(seed, tier):
+    """programs that mix numerical and array statements for q = dce | simp | clone | pipe | lower (judged by oracle_transform only)"""
+    rng = random.Random(seed * 37 + 4242)
+    lines = list(CORPUS_ARR)
+    n = 150 if tier == "quick" else 4000
+    for i in range(n):
+        nblk, nv, ex, blocks, edges, extra, ids = gen_arr_cfg(rng, big=(i % 7 == 0))
+        low = [a for a in ids if rng.random() < 0.4]
+        low = ["L " + " ".join(map(str, low))] if low else []
+        q = ["simp", "clone", "dce", "pipe", "lower"][i % 5]
+        lines.append(fmt_case(nblk, nv, ex, blocks, edges, extra + (low if q in ("lower", "pipe") else []), [("q", q)]))
+        if i % 2 == 0:
+            q2 = "simp" if q != "simp" else "clone"
+            lines.append(fmt_case(nblk, nv, ex, blocks, edges, extra, [("q", q2)]))
+    return lines
+
+
+ARR_KINDS = r"\b(ainit|astore|astorer|aload|aassign)\b"
+
+
+def nontrivial_arr(line, ans):
+    """the program has array statements and the transformation changed it (statement or block count); for q=clone: the
+    program has a range store, an array_init or an array assignment"""
+    if not re.search(ARR_KINDS, line) or not ans.startswith("entry="):
+        return False
+    if " q=clone" in line.split(" | ")[0]:
+        return bool(re.search(r"\b(ainit|astorer|aassign)\b", line))
+    nstm = lambda t: len(re.findall(r"\b(assign|arith|bit|assume|assert|havoc|select|unreachable)\b|" + ARR_KINDS, t))
+    P = parse(line)
+    return nstm(ans) != nstm(line) or ans.count(" | b") != len(P.blocks)
+
+
 # ------------------------------------------------------------------ parsing
 
 class Tok:
@@ -387,7 +488,54 @@ def parse_stmt(t):
         x = BV(k.nexti()); return ("bassert", x, k.nexti())
     if op == "bzext":
         x = k.nexti(); return ("bzext", x, BV(k.nexti()))
+    # array statements: the array variable a<i> is the store entry AV(i) = ("a", i), resolved by arr_index at run time
+    if op == "ainit":
+        a = AV(k.nexti()); sz = k.nexti(); return ("ainit", a, sz, p_exp(k), p_exp(k), p_exp(k))
+    if op == "astore":
+        a = AV(k.nexti()); sz = k.nexti(); strong = k.nexti(); return ("astore", a, sz, strong, p_exp(k), p_exp(k))
+    if op == "astorer":
+        a = AV(k.nexti()); sz = k.nexti(); return ("astorer", a, sz, p_exp(k), p_exp(k), p_exp(k))
+    if op == "aload":
+        x = k.nexti(); a = AV(k.nexti()); sz = k.nexti(); return ("aload", x, a, sz, p_exp(k))
+    if op == "aassign":
+        return ("aassign", AV(k.nexti()), AV(k.nexti()))
     raise ValueError(op)
+
+
+ARR_BASE = 1000
+
+
+def AV(i):
+    """key of the array variable a<i>: arrays live in a dict stored as the store entry s[NV + i]; since parse_stmt does
+    not know the number of integer variables, statements carry ARR_BASE + i and stores are built by mk_store"""
+    if i < 0:
+        raise ValueError("array variable number %d" % i)
+    return ARR_BASE + i
+
+
+def arrays_of(st):
+    k = st[0]
+    if k in ("ainit", "astore", "astorer"): return {st[1] - ARR_BASE}
+    if k == "aload": return {st[2] - ARR_BASE}
+    if k == "aassign": return {st[1] - ARR_BASE, st[2] - ARR_BASE}
+    return set()
+
+
+class Store(list):
+    """integers first, booleans last (negative indices), arrays in .arr: {number: {None: default, index: value}}"""
+    def __init__(self, it=(), arr=None):
+        list.__init__(self, it)
+        self.arr = dict(arr) if arr else {}
+    def __repr__(self):
+        return list.__repr__(self) + ((" arrays %r" % self.arr) if self.arr else "")
+    __str__ = __repr__
+
+
+def lcopy(s):
+    return Store(s, getattr(s, "arr", None))
+
+
+UNDEF = "undef"
 
 
 def BV(i):
@@ -465,6 +613,11 @@ def parse(line):
             bs |= bools_of(st)
     P.nb = max(bs) + 1 if bs else 0                  # number of boolean variables (extra 0/1 entries of the store)
     P.bool_asserts = {st[2] for b in P.blocks for st in P.blocks[b] if st[0] == "bassert"}
+    ar = set()
+    for b in P.blocks:
+        for st in P.blocks[b]:
+            ar |= arrays_of(st)
+    P.na = max(ar) + 1 if ar else 0                  # number of array variables
     return P
 
 
@@ -528,13 +681,13 @@ def step_stmt(st, s, havoc, data_only=False):
     """-> ('ok', store, event|None) | ('stuck', why) | ('fail', id).  havoc: x -> value"""
     k = st[0]
     if k == "assign":
-        s = list(s); s[st[1]] = ev(st[2], s); return ("ok", s, None)
+        s = lcopy(s); s[st[1]] = ev(st[2], s); return ("ok", s, None)
     if k in ("arith", "bit"):
         _, f, x, y, kind, z = st
         v = binop(f, s[y], s[z] if kind == "v" else z)
         if v is None or abs(v) > 10 ** 60:
             return ("stuck", "arith")
-        s = list(s); s[x] = v; return ("ok", s, None)
+        s = lcopy(s); s[x] = v; return ("ok", s, None)
     if k == "assume":
         if data_only or holds(st[1], s): return ("ok", s, ("assume",))
         return ("stuck", "assume")
@@ -542,20 +695,20 @@ def step_stmt(st, s, havoc, data_only=False):
         if data_only or holds(st[1], s): return ("ok", s, ("assert", st[2], True))
         return ("fail", st[2])
     if k == "havoc":
-        s = list(s); s[st[1]] = havoc(st[1]); return ("ok", s, None)
+        s = lcopy(s); s[st[1]] = havoc(st[1]); return ("ok", s, None)
     if k == "select":
-        s = list(s); s[st[1]] = ev(st[3], s) if holds(st[2], s) else ev(st[4], s); return ("ok", s, None)
+        s = lcopy(s); s[st[1]] = ev(st[3], s) if holds(st[2], s) else ev(st[4], s); return ("ok", s, None)
     if k == "bassign":
-        s = list(s); s[st[1]] = 1 if holds(st[2], s) else 0; return ("ok", s, None)
+        s = lcopy(s); s[st[1]] = 1 if holds(st[2], s) else 0; return ("ok", s, None)
     if k == "bcopy":
-        s = list(s); s[st[1]] = s[st[2]]; return ("ok", s, None)
+        s = lcopy(s); s[st[1]] = s[st[2]]; return ("ok", s, None)
     if k == "bnot":
-        s = list(s); s[st[1]] = 1 - s[st[2]]; return ("ok", s, None)
+        s = lcopy(s); s[st[1]] = 1 - s[st[2]]; return ("ok", s, None)
     if k == "bbin":
         a, b = s[st[3]], s[st[4]]
-        s = list(s); s[st[2]] = {"and": a & b, "or": a | b, "xor": a ^ b}[st[1]]; return ("ok", s, None)
+        s = lcopy(s); s[st[2]] = {"and": a & b, "or": a | b, "xor": a ^ b}[st[1]]; return ("ok", s, None)
     if k == "bselect":
-        s = list(s); s[st[1]] = s[st[3]] if s[st[2]] else s[st[4]]; return ("ok", s, None)
+        s = lcopy(s); s[st[1]] = s[st[3]] if s[st[2]] else s[st[4]]; return ("ok", s, None)
     if k in ("bassume", "bnassume"):
         if data_only or s[st[1]] == (1 if k == "bassume" else 0): return ("ok", s, ("assume",))
         return ("stuck", "assume")
@@ -563,9 +716,35 @@ def step_stmt(st, s, havoc, data_only=False):
         if data_only or s[st[1]] == 1: return ("ok", s, ("assert", st[2], True))
         return ("fail", st[2])
     if k == "bhavoc":
-        s = list(s); s[st[1]] = havoc(st[1]) & 1; return ("ok", s, None)
+        s = lcopy(s); s[st[1]] = havoc(st[1]) & 1; return ("ok", s, None)
     if k == "bzext":
-        s = list(s); s[st[1]] = s[st[2]]; return ("ok", s, None)
+        s = lcopy(s); s[st[1]] = s[st[2]]; return ("ok", s, None)
+    if k == "ainit" or k == "astorer":
+        _, a, sz, lb, ub, val = st
+        l, u, v = ev(lb, s), ev(ub, s), ev(val, s)
+        if sz <= 0 or (u - l) // sz > 4096:
+            return ("stuck", "arith")
+        s = lcopy(s)
+        arr = {None: UNDEF} if k == "ainit" else dict(s.arr[a - ARR_BASE])
+        for i in range(l, u + 1, sz):
+            arr[i] = v
+        s.arr[a - ARR_BASE] = arr
+        return ("ok", s, None)
+    if k == "astore":
+        _, a, sz, strong, idx, val = st
+        s = lcopy(s)
+        arr = dict(s.arr[a - ARR_BASE]); arr[ev(idx, s)] = ev(val, s)
+        s.arr[a - ARR_BASE] = arr
+        return ("ok", s, None)
+    if k == "aload":
+        _, x, a, sz, idx = st
+        arr = s.arr[a - ARR_BASE]
+        v = arr.get(ev(idx, s), arr[None])
+        if v == UNDEF:
+            v = havoc(x)
+        s = lcopy(s); s[x] = v; return ("ok", s, None)
+    if k == "aassign":
+        s = lcopy(s); s.arr[st[1] - ARR_BASE] = s.arr[st[2] - ARR_BASE]; return ("ok", s, None)
     return ("stuck", "unreachable")
 
 
@@ -850,15 +1029,16 @@ def oracle_transform(line, ans, rng):
     def count(T, t):
         return sum(x == t for b in T.text for x in T.text[b])
     ndone = 0
-    for t in range(24 if not P.nb else 160):
+    for t in range(24 if not (P.nb or P.na) else 160):
         if t >= 40 and (ndone >= 10 or (ndone == 0 and t >= 80)):
             break                   # (only with booleans) more samples when few executions reach the exit
         s0 = [r0.choice(POOL) for _ in range(P.nv)]
         if P.nb:
             s0 += [r0.choice([0, 1]) for _ in range(P.nb)]      # booleans: the last entries of the store (see BV)
+        s0 = Store(s0, {i: {None: r0.choice(POOL)} for i in range(P.na)})     # arrays: every cell holds the same arbitrary value
         seed = r0.randrange(1 << 30)
         # original leads
-        st, obs, seq, fin, _ = run_leader(P, list(s0), seed)
+        st, obs, seq, fin, _ = run_leader(P, lcopy(s0), seed)
         if STATS is not None:
             STATS["executions"] = STATS.get("executions", 0) + 1
             if st == "done":
@@ -871,15 +1051,15 @@ def oracle_transform(line, ans, rng):
                         STATS[kk] = STATS.get(kk, 0) + 1
         if st == "done":
             ndone += 1
-            st2, obs2, stuck = run_follower(Q, list(s0), seed, seq, set(P.blocks))
+            st2, obs2, stuck = run_follower(Q, lcopy(s0), seed, seq, set(P.blocks))
             want = lower_obs(obs, lowered)
             if st2 != "done" or obs2 != want:
                 return ("an exit-reaching execution of the original has no counterpart in the transformed CFG: initial store %s, "
                         "blocks %s, observations %s; transformed: %s %s" % (s0, seq, want, st2, obs2))
         # transformed leads
-        st, obs, seq, fin, _ = run_leader(Q, list(s0), seed)
+        st, obs, seq, fin, _ = run_leader(Q, lcopy(s0), seed)
         if st == "done":
-            st2, obs2, stuck = run_follower(P, list(s0), seed, seq, set(Q.blocks))
+            st2, obs2, stuck = run_follower(P, lcopy(s0), seed, seq, set(Q.blocks))
             if st2 == "stuck" and stuck is not None and count(Q, stuck) < count(P, stuck):
                 continue        # proviso: a removed statement fails in the original
             if st2 == "limit":
